@@ -225,7 +225,7 @@ fn grammar_module(s: &GSpec, out: &mut String) {
         } else {
             let _ = writeln!(out, "            getters: None,");
         }
-        if s.acc && ["c", "ca", "s", "sx", "r", "rs", "cm", "cmx"].contains(&n.as_str()) {
+        if s.acc && ["c", "ca", "s", "sx", "r", "rs", "cm", "cmx", "cmi"].contains(&n.as_str()) {
             acc_code(s, &g, ri, &ty1, out);
         } else {
             let _ = writeln!(out, "            acc: None,");
